@@ -492,6 +492,67 @@ func semantic(name string, o outcome, env envSetting, known func(string) bool, p
 	}
 }
 
+// a stand-in for ncurses' infocmp with its documented command line: options first ("--" ends
+// them), then an optional terminal name; without a name it describes $TERM. It knows one
+// terminal, xterm, with a deliberately poor description.
+const infocmpStub = `#!/bin/sh
+name=""
+opts=1
+for a in "$@"; do
+	if [ $opts = 1 ] && [ "$a" = "--" ]; then opts=0; continue; fi
+	if [ $opts = 1 ]; then case "$a" in -*) continue;; esac; fi
+	name="$a"
+done
+[ -z "$name" ] && name="$TERM"
+case "$name" in
+xterm) printf '#\tstub\nxterm|stub entry,\n\tam,\n\tcols#80,\n\tlines#24,\n\tclear=\\E[H\\E[2J,\n\tcup=\\E[%%i%%p1%%d;%%p2%%dH,\n' ;;
+*) echo "infocmp: couldn't open terminfo file for $name" >&2; exit 1 ;;
+esac
+`
+
+// optionLikeNames: tcell.LookupTerminfo falls back to the system's infocmp for names the
+// built-in database lacks. A name is a name: one that looks like a command-line option is
+// unknown (ErrTermNotFound or the tool's failure), and asking for it leaves every later lookup
+// as it was.
+func optionLikeNames() {
+	if *hc.Shard != 0 {
+		return
+	}
+	dir, err := os.MkdirTemp("", "verif-c14-")
+	if err != nil {
+		w.Note("optionLikeNames skipped: %v", err)
+		return
+	}
+	defer os.RemoveAll(dir)
+	if err := os.WriteFile(filepath.Join(dir, "infocmp"), []byte(infocmpStub), 0o755); err != nil {
+		w.Note("optionLikeNames skipped: %v", err)
+		return
+	}
+	oldPath, oldTerm := os.Getenv("PATH"), os.Getenv("TERM")
+	defer func() { os.Setenv("PATH", oldPath); os.Setenv("TERM", oldTerm) }()
+	os.Setenv("PATH", dir+string(os.PathListSeparator)+oldPath)
+	os.Setenv("TERM", "xterm")
+	envSetting{"", ""}.apply()
+	pristine := terminfo.VerifSnapshot()
+	before := lookup("xterm")
+	for _, name := range []string{"-x", "-a", "-1", "-T", "--", "-", "-xterm", "nosuchterm", "xterm "} {
+		w.R.Evaluations++
+		w.AddDistinct(1)
+		terminfo.VerifRestore(pristine)
+		ti, err := tcell.LookupTerminfo(name)
+		after := lookup("xterm")
+		if err == nil {
+			w.Violation("dynamic-option-name", fmt.Sprintf("TERM=xterm: tcell.LookupTerminfo(%q) succeeds and returns the entry %q: the name was handed to infocmp as a command-line option, which then described $TERM", name, ti.Name),
+				map[string]interface{}{"name": name})
+		}
+		if !same(after, before) {
+			w.Violation("dynamic-option-name", fmt.Sprintf("TERM=xterm: after tcell.LookupTerminfo(%q) a lookup of \"xterm\" returns a different entry than before: %s", name, diff(after, before)),
+				map[string]interface{}{"name": name})
+		}
+	}
+	terminfo.VerifRestore(pristine)
+}
+
 func main() {
 	w = hc.Start("C14")
 	w.R.Rule = "static: every entry/alias registered in the live database (base + extended): resolves, has cup, every parameterized field is a well-formed terminfo program using no more parameters than tcell supplies, unparameterized fields contain no parameter constructs, Colors agrees with the colour strings (each index 0..Colors-1 decoded by the reference SGR interpreter), RGB strings decode exactly, key table prefix-free. histories: names = registered names x {'', -color, -88color, -256color, -truecolor} + unknown/odd names; for every ordered pair (a,b) (thorough: plus triples over a ~45-name subset), under each environment setting (COLORTERM x TCELL_TRUECOLOR), from a freshly restored database: lookup(b) after lookup(a) deep-equals lookup(b) alone; plus the documented semantics of each single lookup (synthesis, environment switches, ErrTermNotFound). distinct_nontrivial = distinct (first name, environment) rows explored + static obligations"
@@ -512,5 +573,6 @@ func main() {
 	}
 	static()
 	histories()
+	optionLikeNames()
 	w.Finish()
 }
